@@ -1,6 +1,7 @@
 """C18 recorder: header histories (from MC_Headers) executed on a real ServerProxy against the recording peer.
   run <histories.json> <out.json> <seed> <transport: tcp|unix> <rundir>"""
 import json
+import os
 import random
 import sys
 
@@ -46,7 +47,7 @@ def run_history(h, peer, rnd, cfg):
     init = mkdict(h[0], rnd)
     made.append((h[0], init))
     url = peer.url()
-    if url.startswith("http://") and rnd.random() < 0.35:
+    if url.startswith("http://") and (rnd.random() < 0.35 or os.environ.get("VERIF_FORCE_CRED")):
         url = "http://user%d:secret@" % rnd.randint(0, 9) + url[len("http://"):]       # (credentials: the connection adds Authorization)
     proxy = jsonrpc.ServerProxy(url, headers=init, config=cfg, version=rnd.choice([1.0, 2.0]))
     tr = proxy("transport")
